@@ -271,6 +271,19 @@ impl CoreInner {
 		table_id: u64,
 		wal_number: u64,
 	) -> Result<Arc<Table>> {
+		self.flush_immutable_to_sst_with_log_number(memtable, table_id, wal_number + 1)
+	}
+
+	/// Like `flush_immutable_to_sst`, with the manifest log number given
+	/// explicitly: every WAL segment below `log_number` is entirely in SSTs once
+	/// this memtable is. Recovery uses it for a memtable that holds only the
+	/// first part of a WAL segment, which must not mark that segment as flushed.
+	fn flush_immutable_to_sst_with_log_number(
+		&self,
+		memtable: Arc<MemTable>,
+		table_id: u64,
+		log_number: u64,
+	) -> Result<Arc<Table>> {
 		let collect_bptree = self.versioned_index.is_some();
 
 		// Step 1: Flush memtable to SST (with VLog separation for large values)
@@ -315,13 +328,12 @@ impl CoreInner {
 		// Step 3: Prepare atomic changeset
 		let mut changeset = ManifestChangeSet::default();
 		changeset.new_tables.push((0, Arc::clone(&table)));
-		changeset.log_number = Some(wal_number + 1);
+		changeset.log_number = Some(log_number);
 
 		log::debug!(
-			"Changeset prepared: table_id={}, log_number={} (WAL #{:020} flushed)",
+			"Changeset prepared: table_id={}, log_number={} (earlier WALs flushed)",
 			table_id,
-			wal_number + 1,
-			wal_number
+			log_number
 		);
 
 		// Step 4: Apply changeset atomically
@@ -335,7 +347,7 @@ impl CoreInner {
 			let error = Error::Other(format!(
 				"Failed to atomically update manifest: table_id={}, log_number={}: {}",
 				table_id,
-				wal_number + 1,
+				log_number,
 				e
 			));
 			self.error_handler.set_error(error.clone(), BackgroundErrorReason::ManifestWrite);
@@ -353,7 +365,7 @@ impl CoreInner {
 		log::info!(
 			"Manifest updated atomically: table_id={}, log_number={}, last_sequence={}",
 			table_id,
-			wal_number + 1,
+			log_number,
 			manifest.get_last_sequence()
 		);
 
@@ -1043,7 +1055,8 @@ impl Core {
 	/// * `context` - Context string for error messages
 	/// * `recovery_mode` - How to handle corruption
 	/// * `arena_size` - Size for memtable arenas
-	/// * `flush_memtable` - Callback to flush intermediate memtables to SST
+	/// * `flush_memtable` - Callback to flush an intermediate memtable to SST and record the
+	///   given log number (the first WAL segment that still holds unflushed batches)
 	///
 	/// # Returns
 	/// * `(Option<max_seq_num>, Option<active_memtable>)`
@@ -1132,9 +1145,20 @@ impl Core {
 		let memtable_count = memtables.len();
 		if memtable_count > 1 {
 			log::info!("Recovery: flushing {} intermediate memtables to SST", memtable_count - 1);
-			for (memtable, wal_number) in memtables.iter().take(memtable_count - 1) {
+			for (idx, (memtable, wal_number)) in memtables.iter().enumerate().take(memtable_count - 1) {
 				if !memtable.is_empty() {
-					flush_memtable(Arc::clone(memtable), *wal_number)?;
+					// A segment too large for one memtable is split into several
+					// memtables with the same wal number. Only the last of them
+					// completes the segment: after an earlier part is flushed the
+					// segment still holds batches that are in no SST, so the log
+					// number must stay at the segment, not move past it.
+					let segment_continues = memtables[idx + 1].1 == *wal_number;
+					let log_number = if segment_continues {
+						*wal_number
+					} else {
+						*wal_number + 1
+					};
+					flush_memtable(Arc::clone(memtable), log_number)?;
 				}
 			}
 		}
@@ -1216,14 +1240,18 @@ impl Core {
 			"Database startup",
 			opts.wal_recovery_mode,
 			opts.max_memtable_size,
-			|memtable, wal_number| {
+			|memtable, log_number| {
 				// Flush intermediate memtable to SST during recovery
 				let table_id = inner.level_manifest.read()?.next_table_id();
-				inner.flush_immutable_to_sst(Arc::clone(&memtable), table_id, wal_number)?;
-				log::info!(
-					"Recovery: flushed memtable to SST table_id={}, wal_number={}",
+				inner.flush_immutable_to_sst_with_log_number(
+					Arc::clone(&memtable),
 					table_id,
-					wal_number
+					log_number,
+				)?;
+				log::info!(
+					"Recovery: flushed memtable to SST table_id={}, log_number={}",
+					table_id,
+					log_number
 				);
 				Ok(())
 			},
@@ -1615,18 +1643,18 @@ impl Tree {
 			"Database restore",
 			self.core.inner.opts.wal_recovery_mode,
 			self.core.inner.opts.max_memtable_size,
-			|memtable, wal_number| {
+			|memtable, log_number| {
 				// Flush intermediate memtable to SST during recovery
 				let table_id = self.core.inner.level_manifest.read()?.next_table_id();
-				self.core.inner.flush_immutable_to_sst(
+				self.core.inner.flush_immutable_to_sst_with_log_number(
 					Arc::clone(&memtable),
 					table_id,
-					wal_number,
+					log_number,
 				)?;
 				log::info!(
-					"Restore: flushed memtable to SST table_id={}, wal_number={}",
+					"Restore: flushed memtable to SST table_id={}, log_number={}",
 					table_id,
-					wal_number
+					log_number
 				);
 				Ok(())
 			},
